@@ -11,6 +11,7 @@ both packagings (instances of C10.R4-R6 and C18.R7 re-decided here);
 Also decided: add_liquidity_delta is l + d checked both ways with |d| taken unsigned; after the step computation exactly two
 tests (step ended at the tick's price, tick initialised) decide a crossing; every pool / tick / position write-back is
 unconditional (C12.R3 instances).
+Also decided: both sync_modify_liquidity_values apply the pool, position and both tick updates on every successful path.
 Not decided: the sum equality over histories; the tick-array search (C10)."""
 from analysis import cfg, atoms as A, preach, writes
 from analysis.ir import callee_path, AnchorMissing
